@@ -107,18 +107,91 @@ func runC13(c *core.Ctx) {
 		selfOK := chCall.Call.Args[0] == ssa.Value(f.Params[0]) && chCall.Call.Args[1] == ssa.Value(f.Params[1])
 		// receive ops on that channel
 		isCh := func(v ssa.Value) bool { return core.Resolve(v) == ssa.Value(chCall) }
+		// the waiting may be done by an unexported helper that is handed the reply channel (and the expiry channel) and
+		// whose results the asker returns: the rules below then read the helper, its parameters standing for the
+		// asker's arguments
+		body := f
+		isChB := isCh
+		upB := func(v ssa.Value) ssa.Value { return v }
+		{
+			direct := false
+			core.Instrs(f, func(ins ssa.Instruction) {
+				switch x := ins.(type) {
+				case *ssa.UnOp:
+					if x.Op == token.ARROW && isCh(x.X) {
+						direct = true
+					}
+				case *ssa.Select:
+					for _, st := range x.States {
+						if st.Dir == types.RecvOnly && isCh(st.Chan) {
+							direct = true
+						}
+					}
+				}
+			})
+			if !direct {
+				var hc *ssa.Call
+				hi := -1
+				core.Instrs(f, func(ins ssa.Instruction) {
+					call, ok := ins.(*ssa.Call)
+					if !ok || call == chCall {
+						return
+					}
+					g := core.Callee(&call.Call)
+					if g == nil || !p.InRepo(g) || len(g.Blocks) == 0 || g.Object() == nil || g.Object().Exported() {
+						return
+					}
+					for i, a := range call.Call.Args {
+						if isCh(a) && i < len(g.Params) {
+							hc, hi = call, i
+						}
+					}
+				})
+				if hc != nil {
+					h := core.Callee(&hc.Call)
+					// the asker returns the helper's first result as its reply
+					passes := true
+					for _, rc := range core.ReturnCases(f) {
+						v := core.Resolve(rc.Vals[0])
+						if ex, isE := v.(*ssa.Extract); isE && ex.Tuple == ssa.Value(hc) && ex.Index == 0 {
+							continue
+						}
+						if v == ssa.Value(hc) {
+							continue
+						}
+						passes = false
+					}
+					if passes {
+						prm := h.Params[hi]
+						body = h
+						isChB = func(v ssa.Value) bool { return core.Resolve(v) == ssa.Value(prm) }
+						upB = func(v ssa.Value) ssa.Value {
+							if q, isP := core.Resolve(v).(*ssa.Parameter); isP && q.Parent() == h {
+								for i, hp := range h.Params {
+									if hp == q && i < len(hc.Call.Args) {
+										return hc.Call.Args[i]
+									}
+								}
+							}
+							return v
+						}
+						c.Analysed(core.FuncName(h))
+					}
+				}
+			}
+		}
 		var recvVals []ssa.Value // the received value per receive op
 		var sel *ssa.Select
 		selIdx := -1
-		core.Instrs(f, func(ins ssa.Instruction) {
+		core.Instrs(body, func(ins ssa.Instruction) {
 			switch x := ins.(type) {
 			case *ssa.UnOp:
-				if x.Op == token.ARROW && isCh(x.X) {
+				if x.Op == token.ARROW && isChB(x.X) {
 					recvVals = append(recvVals, x)
 				}
 			case *ssa.Select:
 				for i, st := range x.States {
-					if st.Dir == types.RecvOnly && isCh(st.Chan) {
+					if st.Dir == types.RecvOnly && isChB(st.Chan) {
 						sel, selIdx = x, i
 					}
 				}
@@ -127,7 +200,7 @@ func runC13(c *core.Ctx) {
 		// returned value on the reply path is the received value
 		retOK, detail := false, "no return of the received reply found"
 		var timerRet, replyRet *core.RetCase
-		for _, rc0 := range core.ReturnCases(f) {
+		for _, rc0 := range core.ReturnCases(body) {
 			rc := rc0
 			v := core.Resolve(rc.Vals[0])
 			for _, rv := range recvVals {
@@ -198,9 +271,9 @@ func runC13(c *core.Ctx) {
 		c.Check(selfOK && retOK, "R1", key, p.Pos(f.Pos()), "receives from AskChannel(self, target) and returns the received value", fmt.Sprintf("%s (self/target passed through=%v): the asker can get another request's answer", detail, selfOK))
 		// R2 closes
 		nClose := 0
-		core.Instrs(f, func(ins ssa.Instruction) {
+		core.Instrs(body, func(ins ssa.Instruction) {
 			ci, ok := ins.(ssa.CallInstruction)
-			if !ok || !core.IsBuiltin(ci.Common(), "close") || !isCh(ci.Common().Args[0]) {
+			if !ok || !core.IsBuiltin(ci.Common(), "close") || !isChB(ci.Common().Args[0]) {
 				return
 			}
 			nClose++
@@ -220,8 +293,8 @@ func runC13(c *core.Ctx) {
 			if _, isDefer := ins.(*ssa.Defer); isDefer {
 				// runs at every return: each (non-recover) return must come after a receive
 				bad := ""
-				core.Instrs(f, func(i2 ssa.Instruction) {
-					if r, ok := i2.(*ssa.Return); ok && r.Block() != f.Recover && !afterRecv(r.Block(), r) {
+				core.Instrs(body, func(i2 ssa.Instruction) {
+					if r, ok := i2.(*ssa.Return); ok && r.Block() != body.Recover && !afterRecv(r.Block(), r) {
 						bad = p.InstrPos(r)
 					}
 				})
@@ -249,7 +322,11 @@ func runC13(c *core.Ctx) {
 			// the other arm must be time.After(timeout)
 			for i, st := range sel.States {
 				if i != selIdx {
-					call, isCall := st.Chan.(*ssa.Call)
+					armCh := upB(st.Chan)
+					if core.IsNilConst(core.Resolve(armCh)) && len(f.Params) < 3 {
+						continue // an expiry channel that is nil never fires: the plain wait of AskOnce
+					}
+					call, isCall := core.Resolve(armCh).(*ssa.Call)
 					if !isCall {
 						// the definition of time.After written out: timer := time.NewTimer(timeout); <-timer.C
 						if ld, isLd := st.Chan.(*ssa.UnOp); isLd && ld.Op == token.MUL {
@@ -260,7 +337,7 @@ func runC13(c *core.Ctx) {
 							}
 						}
 					}
-					if !isCall || (core.StdCallee(&call.Call) != "time.After" && core.StdCallee(&call.Call) != "time.NewTimer") || core.Resolve(call.Call.Args[0]) != ssa.Value(f.Params[2]) {
+					if !isCall || (core.StdCallee(&call.Call) != "time.After" && core.StdCallee(&call.Call) != "time.NewTimer") || core.Resolve(upB(call.Call.Args[0])) != ssa.Value(f.Params[2]) {
 						ok, d = false, "the second select arm is not time.After(timeout)"
 					}
 				}
